@@ -113,6 +113,8 @@ class Sim:
         self.trace = []
         self.choices = []
         self.live_lock_breaks = 0
+        self.hold_off = False
+        self.finish_step = {}
         self.vnow = 0.0
         self.steps = 0
         self.switches = 0
@@ -890,6 +892,7 @@ class Sim:
         j = self.jobs[job]
         rc = j[self.resub.get("rc_key", "rc2")] if (self.epoch > 0 and self.resub and job in self.resub["selected"]) else j["rc"]
         self.finished.setdefault(job, []).append((rc, self.epoch))
+        self.finish_step.setdefault(job, self.steps)
         self.log("FINISH", job, rc)
         self.shared_event(a, "finish", job)
         out = f"OUT-{job}\n"
@@ -1306,6 +1309,7 @@ class Sim:
     def candidates(self):
         pol = self.scen.get("policy") or {}
         cands = []
+        held_job = False
         sleepers = []
         parked = []
         park_p = pol.get("park_p", 0)
@@ -1345,6 +1349,13 @@ class Sim:
                 if a.msg["k"] == "jobrun":
                     if self.frozen_finishes:
                         continue
+                    hj = self.scen.get("hold_job")
+                    if hj and not self.hold_off and self.running_jobs.get(a.pid, (None, None))[0] == hj["job"]:
+                        # slow job: stays running until another job has finished and the node queue has had time to notice
+                        t = self.finish_step.get(hj["until"])
+                        if t is None or self.steps < t + hj.get("extra", 30):
+                            held_job = True
+                            continue
                     if self.eg and self.eg["phase"] < 4 and self.eg_hold(a):
                         self.eg["held"] = True
                         continue
@@ -1355,6 +1366,9 @@ class Sim:
                 cands.append((pol.get("start_w", 0.5), "start", bid))
             elif b["state"] == "RUNNING" and b.get("kill_pending"):
                 cands.append((pol.get("scancel_w", 0.3), "kill", bid))
+        if held_job and not cands and not sleepers and not parked:
+            self.hold_off = True  # nothing else can move: the held job finishes after all
+            return self.candidates()
         if parked:
             others = [c for c in cands if not (c[1] == "actor" and c[2].msg["k"] == "sleep")]
             idle_polling = self.steps - self.last_progress_step > 40
